@@ -801,6 +801,13 @@ Proof.
   apply Forall_forall. intros b Hb. rewrite forallb_forall in H1. apply H1, Hb.
 Qed.
 
+Lemma pairs_impl {A} (R S : A -> A -> Prop) l :
+  (forall a b, R a b -> S a b) -> ForallOrdPairs R l -> ForallOrdPairs S l.
+Proof.
+  intros HRS Hp. induction Hp as [|a t Hall Hp IH]; constructor; [|exact IH].
+  rewrite Forall_forall in *. intros b Hb. apply HRS, Hall, Hb.
+Qed.
+
 Theorem type_ok_sound tc :
   type_ok tc = true ->
   let t := tc_in tc in let out := tc_out tc in
@@ -822,6 +829,163 @@ Proof.
     split; [apply Nat.leb_le, Hlen|].
     intros f Hf. unfold independent_b in Hind. rewrite forallb_forall in Hind.
     pose proof (pairwise_ok_pairs _ _ (Hind f Hf)) as Hp.
-    induction Hp as [|a l Hall Hp IH]; constructor; [|exact IH].
-    rewrite Forall_forall in *. intros b Hb. apply Z.leb_le, Hall, Hb.
+    eapply pairs_impl; [|exact Hp]. intros a b Hab. apply Z.leb_le, Hab.
 Qed.
+
+(* ---------------------------------------------------------------------------------------- *)
+(* C15: rank statistics                                                                       *)
+(* ---------------------------------------------------------------------------------------- *)
+From AC.Model Require Import CheckC15.
+
+Definition increasing (phi : Z -> Z) : Prop := forall a b, a < b -> phi a < phi b.
+Definition decreasing (psi : Z -> Z) : Prop := forall a b, a < b -> psi b < psi a.
+
+Lemma count_map p (phi : Z -> Z) l : count p (map phi l) = count (fun y => p (phi y)) l.
+Proof. unfold count. rewrite filter_map_comp, map_length. reflexivity. Qed.
+
+Lemma count_ext p q l : (forall y, p y = q y) -> count p l = count q l.
+Proof. intros H. unfold count. rewrite (filter_ext p q H). reflexivity. Qed.
+
+Lemma inc_ltb phi : increasing phi -> forall a b, (phi a <? phi b) = (a <? b).
+Proof.
+  intros H a b. destruct (Z.ltb_spec a b) as [L|L].
+  - apply Z.ltb_lt, H, L.
+  - apply Z.ltb_ge. destruct (Z.eq_dec b a) as [->|Hne]; [lia|].
+    assert (b < a) by lia. pose proof (H b a H0). lia.
+Qed.
+
+Lemma inc_eqb phi : increasing phi -> forall a b, (phi a =? phi b) = (a =? b).
+Proof.
+  intros H a b. destruct (Z.eqb_spec a b) as [->|Hne]; [apply Z.eqb_refl|].
+  apply Z.eqb_neq. destruct (Z.lt_total a b) as [L|[E|L]]; [|contradiction|];
+    pose proof (H _ _ L); lia.
+Qed.
+
+Lemma dec_ltb psi : decreasing psi -> forall a b, (psi a <? psi b) = (b <? a).
+Proof.
+  intros H a b. destruct (Z.ltb_spec b a) as [L|L].
+  - apply Z.ltb_lt, H, L.
+  - apply Z.ltb_ge. destruct (Z.eq_dec b a) as [->|Hne]; [lia|].
+    assert (a < b) by lia. pose proof (H a b H0). lia.
+Qed.
+
+Lemma dec_eqb psi : decreasing psi -> forall a b, (psi a =? psi b) = (a =? b).
+Proof.
+  intros H a b. destruct (Z.eqb_spec a b) as [->|Hne]; [apply Z.eqb_refl|].
+  apply Z.eqb_neq. destruct (Z.lt_total a b) as [L|[E|L]]; [|contradiction|];
+    pose proof (H _ _ L); lia.
+Qed.
+
+Lemma rank2_inc phi xs x : increasing phi -> rank2 (map phi xs) (phi x) = rank2 xs x.
+Proof.
+  intros H. unfold rank2. rewrite !count_map.
+  rewrite (count_ext (fun y => phi y <? phi x) (fun y => y <? x)) by (intros; apply inc_ltb, H).
+  rewrite (count_ext (fun y => phi y =? phi x) (fun y => y =? x)) by (intros; apply inc_eqb, H).
+  reflexivity.
+Qed.
+
+Theorem ranks_monotone phi xs :
+  increasing phi -> ranks2 (map phi xs) = ranks2 xs /\ tie_counts (map phi xs) = tie_counts xs.
+Proof.
+  intros H. unfold ranks2, tie_counts. rewrite !map_map. split; apply map_ext; intros x.
+  - apply rank2_inc, H.
+  - rewrite count_map. apply count_ext. intros y. apply inc_eqb, H.
+Qed.
+
+Lemma count3 xs x :
+  count (fun y => y <? x) xs + count (fun y => y =? x) xs + count (fun y => x <? y) xs
+  = Z.of_nat (List.length xs).
+Proof.
+  unfold count. induction xs as [|a t IH]; cbn [filter List.length]; [reflexivity|].
+  destruct (Z.ltb_spec a x), (Z.eqb_spec a x), (Z.ltb_spec x a); cbn [List.length];
+    rewrite ?Nat2Z.inj_succ; lia.
+Qed.
+
+Theorem ranks_antitone psi xs :
+  decreasing psi ->
+  ranks2 (map psi xs) = map (fun r => 2 * Z.of_nat (List.length xs) + 2 - r) (ranks2 xs)
+  /\ tie_counts (map psi xs) = tie_counts xs.
+Proof.
+  intros H. unfold ranks2, tie_counts. rewrite !map_map. split; apply map_ext; intros x.
+  - unfold rank2. rewrite !count_map.
+    rewrite (count_ext (fun y => psi y <? psi x) (fun y => x <? y)) by (intros; apply dec_ltb, H).
+    rewrite (count_ext (fun y => psi y =? psi x) (fun y => y =? x)) by (intros; apply dec_eqb, H).
+    pose proof (count3 xs x). lia.
+  - rewrite count_map. apply count_ext. intros y. apply dec_eqb, H.
+Qed.
+
+(* H and rho are functions of the rank vector and the tie counts: invariant under any strictly
+   increasing re-encoding of the feature (positive rescaling, x^3, log, ...) *)
+Theorem kruskal_spearman_monotone phi xs ys lab groups :
+  increasing phi ->
+  kruskal_stat (map phi xs) lab groups = kruskal_stat xs lab groups
+  /\ spearman_stat (map phi xs) ys = spearman_stat xs ys
+  /\ spearman_stat ys (map phi xs) = spearman_stat ys xs.
+Proof.
+  intros H. destruct (ranks_monotone phi xs H) as [Hr Ht].
+  unfold kruskal_stat, group_stat, spearman_stat. rewrite Hr, Ht. auto.
+Qed.
+
+(* negation: the covariance term changes sign, the variances do not: rho^2 is invariant *)
+Lemma zsum_map_sub c xs : zsum (map (fun r => c - r) xs) = c * Z.of_nat (List.length xs) - zsum xs.
+Proof.
+  induction xs as [|a t IH]; cbn [map zsum List.length]; [ring|].
+  rewrite IH, Nat2Z.inj_succ. ring.
+Qed.
+
+Lemma zsum_mul_sub c xs : forall ys, List.length xs = List.length ys ->
+  zsum (map2 Z.mul (map (fun r => c - r) xs) ys) = c * zsum ys - zsum (map2 Z.mul xs ys).
+Proof.
+  induction xs as [|a t IH]; intros [|b ys] Hl; cbn [map map2 zsum] in *; try discriminate; [ring|].
+  injection Hl as Hl. rewrite (IH ys Hl). ring.
+Qed.
+
+Lemma zsum_sq_sub c xs :
+  zsum (map2 Z.mul (map (fun r => c - r) xs) (map (fun r => c - r) xs))
+  = c * c * Z.of_nat (List.length xs) - 2 * c * zsum xs + zsum (map2 Z.mul xs xs).
+Proof.
+  induction xs as [|a t IH]; cbn [map map2 zsum List.length]; [ring|].
+  rewrite IH, Nat2Z.inj_succ. ring.
+Qed.
+
+Theorem pearson_reflect c xs ys :
+  List.length xs = List.length ys ->
+  pearson_stat (map (fun r => c - r) xs) ys
+  = (let '(cv, vx, vy) := pearson_stat xs ys in (- cv, vx, vy)).
+Proof.
+  intros Hl. unfold pearson_stat.
+  rewrite map_length, zsum_map_sub, (zsum_mul_sub c xs ys Hl), zsum_sq_sub.
+  cbv beta iota zeta.
+  apply pair_equal_spec; split; [apply pair_equal_spec; split|]; rewrite ?Hl; ring.
+Qed.
+
+Theorem spearman_negation psi xs ys :
+  decreasing psi -> List.length xs = List.length ys ->
+  spearman_stat (map psi xs) ys = (let '(cv, vx, vy) := spearman_stat xs ys in (- cv, vx, vy)).
+Proof.
+  intros H Hl. unfold spearman_stat. destruct (ranks_antitone psi xs H) as [-> _].
+  apply pearson_reflect. unfold ranks2. rewrite !map_length. exact Hl.
+Qed.
+
+(* RegressionSelector's default (distance_measure = 1 - r, `if d_corr:`): model-level witnesses *)
+Definition copy_witness : tin :=   (* one feature, exact copy of the target: r = 1, key = 1 - r^2 = 0 *)
+  mkTin 10 (999, 1000) (999, 1000) 1%nat [mkM true true false 0 0]
+        [mkFeat 0 0 1 [mkRaw false false true 0] [Some 1]] [mkFilter 1 [[(0, false)]]].
+
+Theorem regression_copy_dropped :
+  exists t, t_nbest t = 1%nat /\ map f_spec (t_feats t) = [[Some 1]] /\ select_type t = Ok [].
+Proof. exists copy_witness. repeat split; vm_compute; reflexivity. Qed.
+
+(* key = 100 - sign(r) * 100 r^2: feature 0 has r = 0.9, feature 1 has r = -0.5; negating
+   feature 0 (r = -0.9) changes the order although the strengths r^2 are unchanged *)
+Definition neg_witness (k0 : Z) : tin :=
+  mkTin 10 (999, 1000) (999, 1000) 2%nat [mkM true true false 0 0]
+        [mkFeat 0 0 1 [mkRaw false false false k0] [Some 81];
+         mkFeat 1 0 1 [mkRaw false false false 125] [Some 25]]
+        [mkFilter 100 [[(0, false); (1, false)]; [(1, false); (0, false)]]].
+
+Theorem regression_negation_changes_order :
+  select_type (neg_witness (100 - 81)) = Ok [1%nat; 0%nat] /\
+  select_type (neg_witness (100 + 81)) = Ok [0%nat; 1%nat] /\
+  map f_spec (t_feats (neg_witness (100 - 81))) = map f_spec (t_feats (neg_witness (100 + 81))).
+Proof. repeat split; vm_compute; reflexivity. Qed.
